@@ -9,6 +9,9 @@ import ecdsa
 from skv import ref, bridge, env
 
 
+REFUSALS = []      # generated valid blocks that the code under test refused (all worlds of this process)
+
+
 def make_keys(n, tag=b"skv-key"):
     out = []
     for i in range(n):
@@ -34,6 +37,8 @@ class World:
         self.CoinState = CoinState
         self.cs = CoinState.zero()
         self.pending = []
+        self.reuse_pending = True
+        self.refusals = []
         self.bad_keys = [b"\x00" * 64, b"\x07" * 64, b"\xff" * 64]     # 64 bytes that are not a curve point
         self.bad_key_prob = 0.0
         self.counters = {"blocks_real_route": 0, "blocks_ref_route": 0, "tx_real_signed": 0, "tx_ref_signed": 0,
@@ -150,13 +155,21 @@ class World:
 
     def accept(self, rb, real, cs=None, validate=True, now=None):
         """adds to the reference store and the world's real state (which holds every block of the tree)"""
+        if cs is None:
+            try:
+                if validate:
+                    self.cs = self.cs.add_block(real, now if now is not None else rb.ts)
+                else:
+                    self.cs = self.cs.add_block_no_validation(real)
+            except Exception as e:
+                # a block the reference built as valid is refused by the code under test: not this generator's verdict
+                # to give -- count it (checks turn a non-zero count into a violation or an inconclusive run) and go on
+                self.counters["generated_valid_block_refused"] = self.counters.get("generated_valid_block_refused", 0) + 1
+                self.refusals.append("%s: %s" % (type(e).__name__, str(e)[:80]))
+                REFUSALS.append(self.refusals[-1])
+                return None
         bid = self.chain.add(rb)
         self.real[bid] = real
-        if cs is None:
-            if validate:
-                self.cs = self.cs.add_block(real, now if now is not None else rb.ts)
-            else:
-                self.cs = self.cs.add_block_no_validation(real)
         return bid
 
     # ------------------------------------------------------------------ trees
@@ -181,7 +194,7 @@ class World:
             used = set()
             led = self.ledger(pid)
             # pending transactions made earlier (possibly already mined on a sibling fork) that are valid here too
-            for t in list(self.pending):
+            for t in (list(self.pending) if self.reuse_pending else []):
                 if rng.random() < 0.5 and not (set(t.refs()) & used) and all(r in led for r in t.refs()) \
                         and not ref.tx_codes_in_ledger(t, led):
                     used.update(t.refs())
@@ -199,7 +212,9 @@ class World:
                         self.pending = self.pending[-6:]
             rb, real = self.assemble(pid, rtxs, ts, rng.choice(self.keys)[1],
                                      data=rng.choice([b"", b"skv", bytes([rng.randrange(256)]) * rng.randrange(0, 200)]))
-            new.append(self.accept(rb, real, validate=validate, now=ts + rng.choice([-30, 0, 5, 10_000])))
+            bid = self.accept(rb, real, validate=validate, now=ts + rng.choice([-30, 0, 5, 10_000]))
+            if bid is not None:
+                new.append(bid)
         return new
 
 
